@@ -2,8 +2,10 @@
    push0_pipe_close marks the pipe closed and push0_pipe_ready does nothing for a closed pipe.
    The wrapper adds the set of closed pipes to PushModel's state; [fc] = the repair is in the
    source (Gen/Consts.v C06_PUSH_CLOSED_GUARD_FIXED).  With fc = false, and in every step that is
-   not the successful send completion of a closed pipe, it is PushModel.push_step unchanged, so
-   the theorems of PushProofs / PipelineProofs carry over (PushGuard_contract below). *)
+   not the successful send completion of a closed pipe, it is PushModel.push_step_r fr unchanged
+   (fr = the resize repair is in the source, Gen/Consts.v C06_PUSH_RESIZE_ADMITS_FIXED; push_step_r
+   false = push_step, and push_step_r true differs from push_step only on NNG_OPT_SENDBUF), so the
+   theorems of PushProofs / PushSubmit / PipelineProofs carry over (PushGuard_contract below). *)
 From Coq Require Import List Arith NArith Bool Lia.
 From NngV Require Import Gen.Consts Proto.Common Proto.PushModel.
 Import ListNotations.
@@ -12,38 +14,52 @@ Record pushg := mkPushg { pg_s : push; pg_closed : list pid }.
 
 Definition pushg_init : pushg := mkPushg push_init [].
 
-Definition push_step_g (fc : bool) (g : pushg) (o : pop) : pushg * list pout :=
+Definition push_step_g (fc fr : bool) (g : pushg) (o : pop) : pushg * list pout :=
   match o with
   | PPipeClose p =>
-      let (s', outs) := push_step (pg_s g) o in (mkPushg s' (p :: pg_closed g), outs)
+      let (s', outs) := push_step_r fr (pg_s g) o in (mkPushg s' (p :: pg_closed g), outs)
   | PSendDone p rv =>
       if fc && N.eqb rv 0 && has_id p (pg_closed g) then
         (* push0_send_cb -> push0_pipe_ready: p->closed => return (the message was sent) *)
         let s := pg_s g in
         (mkPushg (mkPush (ps_pl s) (ps_wq s) (ps_cap s) (ps_aq s) (set_sending s p None) (ps_writable s)) (pg_closed g), [])
-      else let (s', outs) := push_step (pg_s g) o in (mkPushg s' (pg_closed g), outs)
-  | _ => let (s', outs) := push_step (pg_s g) o in (mkPushg s' (pg_closed g), outs)
+      else let (s', outs) := push_step_r fr (pg_s g) o in (mkPushg s' (pg_closed g), outs)
+  | _ => let (s', outs) := push_step_r fr (pg_s g) o in (mkPushg s' (pg_closed g), outs)
   end.
 
 Definition pushg_poll (g : pushg) : ppoll := push_poll (pg_s g).
 
 (* the instance for the source as it is *)
 Definition push0_init : pushg := pushg_init.
-Definition push0_step : pushg -> pop -> pushg * list pout := push_step_g C06_PUSH_CLOSED_GUARD_FIXED.
+Definition push0_step : pushg -> pop -> pushg * list pout := push_step_g C06_PUSH_CLOSED_GUARD_FIXED C06_PUSH_RESIZE_ADMITS_FIXED.
 Definition push0_poll : pushg -> ppoll := pushg_poll.
 
 (* ---- proofs ---- *)
 Definition stale_done (g : pushg) (o : pop) : bool :=
   match o with PSendDone p rv => N.eqb rv 0 && has_id p (pg_closed g) | _ => false end.
+Definition is_resize (o : pop) : bool := match o with PSetOpt _ (OSendBuf _) => true | _ => false end.
 
-Theorem PushGuard_contract fc g o : stale_done g o = false ->
-  fst (fst (push_step_g fc g o), snd (push_step_g fc g o)) = fst (push_step_g fc g o) /\
-  pg_s (fst (push_step_g fc g o)) = fst (push_step (pg_s g) o) /\
-  snd (push_step_g fc g o) = snd (push_step (pg_s g) o).
+Lemma push_step_r_false s o : push_step_r false s o = push_step s o.
+Proof. destruct o as [| | | | | | |c op| | | |]; try reflexivity. destruct op; reflexivity. Qed.
+Lemma push_step_r_other fr s o : is_resize o = false -> push_step_r fr s o = push_step s o.
+Proof. destruct o as [| | | | | | |c op| | | |]; try reflexivity. destruct op; try reflexivity. discriminate. Qed.
+
+Theorem PushGuard_contract_r fc fr g o : stale_done g o = false ->
+  pg_s (fst (push_step_g fc fr g o)) = fst (push_step_r fr (pg_s g) o) /\
+  snd (push_step_g fc fr g o) = snd (push_step_r fr (pg_s g) o).
 Proof.
-  intros H. split; [reflexivity|]. destruct o; cbn [push_step_g stale_done] in *;
-    try (destruct (push_step (pg_s g) _) as [s' outs]; split; reflexivity).
-  rewrite <- andb_assoc, H, andb_false_r. destruct (push_step (pg_s g) _) as [s' outs]. split; reflexivity.
+  intros H. destruct o; cbn [push_step_g stale_done] in *;
+    try (destruct (push_step_r fr (pg_s g) _) as [s' outs]; split; reflexivity).
+  rewrite <- andb_assoc, H, andb_false_r. destruct (push_step_r fr (pg_s g) _) as [s' outs]. split; reflexivity.
+Qed.
+
+Theorem PushGuard_contract fc fr g o : stale_done g o = false -> (fr = false \/ is_resize o = false) ->
+  fst (fst (push_step_g fc fr g o), snd (push_step_g fc fr g o)) = fst (push_step_g fc fr g o) /\
+  pg_s (fst (push_step_g fc fr g o)) = fst (push_step (pg_s g) o) /\
+  snd (push_step_g fc fr g o) = snd (push_step (pg_s g) o).
+Proof.
+  intros H R. split; [reflexivity|]. destruct (PushGuard_contract_r fc fr g o H) as [A B]. rewrite A, B.
+  destruct R as [->|R]; [rewrite push_step_r_false|rewrite push_step_r_other by exact R]; split; reflexivity.
 Qed.
 
 (* a closed pipe is never on the ready list again (pipe ids are not reused) *)
@@ -72,11 +88,11 @@ Proof.
   apply in_app_or in Hin as [Hin|[<-|[]]]; [left; exact Hin|right; reflexivity].
 Qed.
 
-Theorem push_closed_never_ready_step g o g' outs :
-  CInv g -> fresh_ok g o -> push_step_g true g o = (g', outs) -> CInv g'.
+Theorem push_closed_never_ready_step fr g o g' outs :
+  CInv g -> fresh_ok g o -> push_step_g true fr g o = (g', outs) -> CInv g'.
 Proof.
   unfold CInv. intros HI HF H.
-  destruct o as [c a nb m|c a nb|a rv|p peer|p|p rv|p rv m|c o|c|c| |now]; cbn [push_step_g fresh_ok] in *.
+  destruct o as [c a nb m|c a nb|a rv|p peer|p|p rv|p rv m|c o|c|c| |now]; cbn [push_step_g push_step_r fresh_ok] in *.
   - (* PSend *)
     cbn [push_step] in H. destruct (ps_pl (pg_s g)) as [|p0 rest] eqn:PL.
     + destruct (negb (wq_full (pg_s g))); [|destruct nb]; inversion H; subst; cbn [pg_closed pg_s ps_pl];
@@ -108,23 +124,26 @@ Proof.
         apply negb_false_iff in RV. rewrite RV in ST. cbn [andb] in ST.
         apply has_id_In in Hq. congruence.
   - (* PRecvDone *) cbn [push_step] in H. destruct (negb (rv =? 0)%N); inversion H; subst; exact HI.
-  - cbn [push_step] in H. destruct o; try (inversion H; subst; exact HI).
-    destruct (8192 <? N.of_nat n)%N; inversion H; subst; exact HI.
+  - (* PSetOpt: neither text touches the ready list *)
+    destruct o; try (cbn [push_step] in H; inversion H; subst; exact HI).
+    destruct (fr && negb (8192 <? N.of_nat n)%N).
+    + unfold push_resize_admit in H. inversion H; subst. exact HI.
+    + cbn [push_step] in H. destruct (8192 <? N.of_nat n)%N; inversion H; subst; exact HI.
   - cbn [push_step] in H. inversion H; subst. exact HI.
   - cbn [push_step] in H. inversion H; subst. exact HI.
   - cbn [push_step] in H. inversion H; subst. exact HI.
   - cbn [push_step] in H. inversion H; subst. exact HI.
 Qed.
 
-Fixpoint push_run_g (fc : bool) (g : pushg) (ops : list pop) : pushg :=
-  match ops with [] => g | o :: r => push_run_g fc (fst (push_step_g fc g o)) r end.
-Fixpoint fresh_all (fc : bool) (g : pushg) (ops : list pop) : Prop :=
-  match ops with [] => True | o :: r => fresh_ok g o /\ fresh_all fc (fst (push_step_g fc g o)) r end.
+Fixpoint push_run_g (fc fr : bool) (g : pushg) (ops : list pop) : pushg :=
+  match ops with [] => g | o :: r => push_run_g fc fr (fst (push_step_g fc fr g o)) r end.
+Fixpoint fresh_all (fc fr : bool) (g : pushg) (ops : list pop) : Prop :=
+  match ops with [] => True | o :: r => fresh_ok g o /\ fresh_all fc fr (fst (push_step_g fc fr g o)) r end.
 
-Theorem push_closed_never_ready ops : forall g, CInv g -> fresh_all true g ops -> CInv (push_run_g true g ops).
+Theorem push_closed_never_ready fr ops : forall g, CInv g -> fresh_all true fr g ops -> CInv (push_run_g true fr g ops).
 Proof.
   induction ops as [|o r IH]; intros g HI HF; cbn [push_run_g fresh_all] in *; [exact HI|].
-  destruct HF as [F1 F2]. destruct (push_step_g true g o) as [g' outs] eqn:E. cbn [fst] in *.
+  destruct HF as [F1 F2]. destruct (push_step_g true fr g o) as [g' outs] eqn:E. cbn [fst] in *.
   apply IH; [eapply push_closed_never_ready_step; eauto|exact F2].
 Qed.
 
@@ -132,11 +151,11 @@ Qed.
    back on the ready list, and the next send hands a message to it (in C: a destroyed pipe) *)
 Definition push_stale_witness : list pop :=
   [PPipeStart 1%N PROTO_PULL; PSend None 1%N true (mkPmsg [] [1%N]); PPipeClose 1%N; PSendDone 1%N 0%N].
-Theorem push_closed_pipe_ready_refuted :
-  let g := push_run_g false pushg_init push_stale_witness in
-  fresh_all false pushg_init push_stale_witness /\ In 1%N (pg_closed g) /\ In 1%N (ps_pl (pg_s g)) /\
-  exists g' rest, push_step_g false g (PSend None 2%N true (mkPmsg [] [2%N])) = (g', Complete 2%N E_OK None :: TranSend 1%N (mkPmsg [] [2%N]) :: rest).
-Proof. vm_compute. split; [intuition discriminate|]. split; [left; reflexivity|]. split; [left; reflexivity|]. eexists _, _. reflexivity. Qed.
-Theorem push_closed_pipe_ready_holds_on_witness :
-  let g := push_run_g true pushg_init push_stale_witness in ps_pl (pg_s g) = [] /\ ps_sending (pg_s g) = [].
-Proof. vm_compute. split; reflexivity. Qed.
+Theorem push_closed_pipe_ready_refuted fr :
+  let g := push_run_g false fr pushg_init push_stale_witness in
+  fresh_all false fr pushg_init push_stale_witness /\ In 1%N (pg_closed g) /\ In 1%N (ps_pl (pg_s g)) /\
+  exists g' rest, push_step_g false fr g (PSend None 2%N true (mkPmsg [] [2%N])) = (g', Complete 2%N E_OK None :: TranSend 1%N (mkPmsg [] [2%N]) :: rest).
+Proof. destruct fr; vm_compute; (split; [intuition discriminate|]); (split; [left; reflexivity|]); (split; [left; reflexivity|]); eexists _, _; reflexivity. Qed.
+Theorem push_closed_pipe_ready_holds_on_witness fr :
+  let g := push_run_g true fr pushg_init push_stale_witness in ps_pl (pg_s g) = [] /\ ps_sending (pg_s g) = [].
+Proof. destruct fr; vm_compute; split; reflexivity. Qed.
